@@ -1,0 +1,140 @@
+//go:build verif
+
+// Package verifhook is instrumentation for the external verification harness.
+// It is compiled in only with the build tag "verif"; without the tag every
+// function is an empty inlinable stub (hook_off.go).
+package verifhook
+
+import (
+	"math/rand"
+	"runtime"
+	"sync"
+	"sync/atomic"
+	"time"
+)
+
+// Event is one record of the row-pipeline trace. Seq is taken with a single
+// global atomic add, so the order of records respects every happens-before
+// edge created by the library's own atomics.
+type Event struct {
+	Seq int64  `json:"seq"`
+	K   string `json:"k"`
+	Y   int    `json:"y"`
+	A   int    `json:"a"`
+}
+
+var (
+	on     atomic.Bool
+	seq    atomic.Int64
+	mu     sync.Mutex
+	events []Event
+
+	profMu  sync.Mutex
+	rng     *rand.Rand
+	profile map[string]int // event kind -> percent probability of a delay; "*" = default
+
+	reconMu sync.Mutex
+	reconOn bool
+	recon   *Recon
+
+	poolHits sync.Map // name -> *atomic.Int64
+)
+
+// Start begins recording with the given perturbation profile (nil = none).
+func Start(seed int64, prof map[string]int) {
+	mu.Lock()
+	events = events[:0]
+	mu.Unlock()
+	seq.Store(0)
+	profMu.Lock()
+	rng = rand.New(rand.NewSource(seed))
+	profile = prof
+	profMu.Unlock()
+	on.Store(true)
+}
+
+// Stop ends recording and returns the events in sequence order.
+func Stop() []Event {
+	on.Store(false)
+	mu.Lock()
+	defer mu.Unlock()
+	out := append([]Event(nil), events...)
+	return out
+}
+
+// Ev records an event and possibly perturbs the schedule.
+func Ev(kind string, y, a int) {
+	if !on.Load() {
+		return
+	}
+	s := seq.Add(1)
+	mu.Lock()
+	events = append(events, Event{s, kind, y, a})
+	mu.Unlock()
+	profMu.Lock()
+	p, ok := profile[kind]
+	if !ok {
+		p = profile["*"]
+	}
+	r, d := 100, 0
+	if p > 0 && rng != nil {
+		r = rng.Intn(100)
+		d = 50 + rng.Intn(400)
+	}
+	profMu.Unlock()
+	if r < p {
+		if d%3 == 0 {
+			runtime.Gosched()
+		} else {
+			time.Sleep(time.Duration(d) * time.Microsecond)
+		}
+	}
+}
+
+// Recon is a copy of the encoder's sample planes when EncodeFrame returns.
+type Recon struct {
+	Y, U, V           []byte
+	YStride, UVStride int
+	W, H              int
+}
+
+// WantRecon arms (or disarms) capturing of the next EncodeFrame's planes.
+func WantRecon(b bool) {
+	reconMu.Lock()
+	reconOn, recon = b, nil
+	reconMu.Unlock()
+}
+
+// TakeRecon returns the captured planes (nil if none).
+func TakeRecon() *Recon {
+	reconMu.Lock()
+	defer reconMu.Unlock()
+	r := recon
+	recon = nil
+	return r
+}
+
+// ReconPlanes is called at the end of VP8Encoder.EncodeFrame.
+func ReconPlanes(y, u, v []byte, yStride, uvStride, w, h int) {
+	reconMu.Lock()
+	if reconOn {
+		recon = &Recon{append([]byte(nil), y...), append([]byte(nil), u...), append([]byte(nil), v...), yStride, uvStride, w, h}
+	}
+	reconMu.Unlock()
+}
+
+// PoolHit counts a Get that returned a pooled object.
+func PoolHit(name string) {
+	c, _ := poolHits.LoadOrStore(name, new(atomic.Int64))
+	c.(*atomic.Int64).Add(1)
+}
+
+// PoolHits returns the counters.
+func PoolHits() map[string]int64 {
+	out := map[string]int64{}
+	poolHits.Range(func(k, v any) bool {
+		out[k.(string)] = v.(*atomic.Int64).Load()
+		return true
+	})
+	return out
+}
